@@ -222,9 +222,9 @@ func (it *Interp) binop(op token.Token, t types.Type, xt types.Type, x, y Value)
 		r := rangeOf(t)
 		switch op {
 		case token.ADD:
-			return simp(wrapOnce(mk("+", false, a, b), r))
+			return simp(wrapOnce(tAdd(a, b), r))
 		case token.SUB:
-			return simp(wrapOnce(mk("-", false, a, b), r))
+			return simp(wrapOnce(tSub(a, b), r))
 		case token.LSS:
 			return simp(tCmp("<", a, b))
 		case token.LEQ:
@@ -729,7 +729,7 @@ func (it *Interp) exec(fr *frame, ins ssa.Instruction) {
 		case token.SUB:
 			switch xv := x.(type) {
 			case *Term:
-				it.set(fr, ins, simp(wrapOnce(mk("-", false, tInt(0), xv), rangeOf(ins.Type()))))
+				it.set(fr, ins, simp(wrapOnce(tSub(tInt(0), xv), rangeOf(ins.Type()))))
 			case int64:
 				it.set(fr, ins, normInt(-xv, rangeOf(ins.Type())))
 			case float64:
